@@ -1,6 +1,7 @@
 import PartituraModel.Wire
 import PartituraModel.Model.NoteArray
 import PartituraModel.Model.NoteArrayMaps
+import PartituraModel.Model.NoteArrayBack
 
 open Wire NoteArray
 
@@ -200,6 +201,22 @@ def handle (ts : List String) : String :=
       match fromArray hb hd ht a d with
       | .error _ => "err"
       | .ok (dv, l) => fmtNat dv ++ ";" ++ fmtList fmtTriple (isort leTriple l)
+  | "invback" :: rest =>
+    -- what the note array of the new part gives back: pickup measure, first measure, (quarter, beat) per note
+    match run (do
+        let hb ← bool; let hd ← bool; let ht ← bool
+        let d ← opt nat; let tb ← nat; let tt ← nat; let san ← bool
+        let a ← list parseARow; pure (hb, hd, ht, d, tb, tt, san, a)) rest with
+    | none => "bad-request"
+    | some (hb, hd, ht, d, tb, tt, san, a) =>
+      let ts : Option (Nat × Nat) := if tb = 0 then none else some (tb, tt)
+      match fromArrayBack hb hd ht a d ts san with
+      | .error _ => "err"
+      | .ok b =>
+        let notes := isort (fun x y => leTriple x.1 y.1) b.notes
+        "[a:" ++ fmtInt (if ts.isSome && decide (0 < b.anacrusis) then b.anacrusis else 0) ++
+        ",m:" ++ (match b.m1 with | some e => fmtInt e | none => "-") ++ "," ++
+        fmtList (fun (x : (Int × Int × Int) × (Rat × Rat)) => fmtList fmtRat [x.2.1, x.2.2]) notes ++ "]"
   | "dfb" :: rest =>
     match run (list (do let o ← rat; let d ← rat; pure (o, d))) rest with
     | none => "bad-request"
